@@ -15,6 +15,7 @@ type hgen struct {
 	plain   []bool   // created from scratch as "genuine"/"real" (mutations allowed on any complete request)
 	trunc   []bool   // request is a truncated one (cannot be mutated)
 	salt    uint64
+	nheld   int
 	nobody  map[int]bool // request may have an empty body chunk
 	mutated map[int]bool // request is a mutation of another one
 }
@@ -86,6 +87,53 @@ func (g *hgen) mut(base int, hold bool) int {
 	g.nobody[len(g.ts)-1] = how == "truncbody" || g.nobody[base]
 	g.mutated[len(g.ts)-1] = true
 	return len(g.ts) - 1
+}
+
+func (g *hgen) open() int {
+	g.c.Ops = append(g.c.Ops, Op{Op: "open"})
+	g.nheld++
+	return g.nheld - 1
+}
+
+func (g *hgen) send(h, i int) {
+	g.c.Ops = append(g.c.Ops, Op{Op: "send", H: h, R: i})
+}
+
+// heldConnection: an idle connection is handed to the server at instant a; the request bytes are written on it at
+// instant b >= a (b - a from 0 to 70 s, around 30 / 31 / 60 / 61 s), with other traffic in between. The server clock
+// that counts is the one at b.
+func (g *hgen) heldConnection() {
+	g.alignFrac(g.frac())
+	var r int
+	switch g.r.Intn(3) {
+	case 0: // a request that was already accepted (a replay arrives on the idle connection)
+		r = g.newReq("genuine", uint64(g.sec()+g.skew()), false)
+		g.adv(common.Pick(g.r, []int64{0, 1, 1e9, 25e9, 29e9, 30e9, 31e9, int64(g.r.Intn(40000000000))}))
+	case 1: // a request made when the connection was opened (valid at a)
+		r = g.newReq("genuine", uint64(g.sec()+g.skew()), true)
+	default:
+		r = -1 // made when the bytes are written (valid at b)
+	}
+	h := g.open()
+	wait := common.Pick(g.r, []int64{0, 1, 999999999, 29e9, 30e9, 30e9 + 1, 31e9, 31e9 + 1, 37e9, 59e9, 60e9, 61e9, 61e9 + 1, 62e9, 70e9, int64(g.r.U64() % 70e9)})
+	target := g.now + wait
+	k := g.r.Range(0, 2)
+	for j := 0; j < k && target > g.now; j++ {
+		g.adv(int64(g.r.U64() % uint64(target-g.now+1)))
+		g.noise(-1)
+	}
+	g.advTo(target)
+	if g.r.Chance(1, 2) {
+		g.newReq("genuine", uint64(g.sec()), false) // a fresh accepted request right before: its Add prunes
+	}
+	if r < 0 {
+		r = g.newReq("genuine", uint64(g.sec()+g.skew()), true)
+	}
+	g.send(h, r)
+	if g.r.Chance(1, 2) {
+		g.adv(common.Pick(g.r, []int64{0, 1, 1e9}))
+		g.present(r)
+	}
 }
 
 func (g *hgen) present(i int) int {
@@ -293,7 +341,9 @@ func genReplayCase(r *common.Rng) Case {
 		g.endOfValidity()
 	case 3:
 		g.exactSpan()
-	case 4, 5:
+	case 4:
+		g.heldConnection()
+	case 5:
 		g.retentionEdge()
 	case 6:
 		g.forgedFirst()
@@ -304,6 +354,24 @@ func genReplayCase(r *common.Rng) Case {
 		g.walk(len(g.c.Ops) + 10)
 	}
 	return g.c
+}
+
+// heldProbe: an idle connection opened 25 s after r was accepted, left blocked in its first read; 62 s after the
+// acceptance a fresh request is accepted; then r's bytes arrive on the idle connection. The instant that counts for
+// the timestamp check and for Add is the one at which the bytes arrive (the code reads the clock after the first read).
+func heldProbe() Case {
+	c := Case{Engine: "replay", Cfg: Cfg{KeySeed: 3, KeyLen: 16}}
+	sec := uint64(bubbleStart / 1e9)
+	c.Ops = []Op{
+		{Op: "adv", D: 300000000},
+		{Op: "new", Kind: "genuine", Ts: sec, Pad: 3, Salt: 21},
+		{Op: "adv", D: 25000000000},
+		{Op: "open"},
+		{Op: "adv", D: 37000000000},
+		{Op: "new", Kind: "genuine", Ts: sec + 62, Pad: 3, Salt: 23},
+		{Op: "send", H: 0, R: 0},
+	}
+	return c
 }
 
 // f2Probe: the witness history of finding F2 (DESIGN §6): client clock +30 s, accepted at T0+0.5 s; 60.1 s later a
